@@ -20,10 +20,18 @@ theorem and_two_pow (r i : Nat) : r &&& 2 ^ i = if r.testBit i then 2 ^ i else 0
     by_cases h : r.testBit i <;> simp [h, Nat.testBit_two_pow]
   · by_cases h : r.testBit i <;> simp [h, hij, Nat.testBit_two_pow]
 
+/-- a single-bit mask is non-zero exactly when the bit is set (hand-written `LogLevel.positive` uses this form) -/
+theorem and_two_pow_ne_zero (r i : Nat) : ((r &&& 2 ^ i) != 0) = r.testBit i := by
+  rw [and_two_pow]
+  by_cases h : r.testBit i <;> simp [h, two_pow_ne_zero]
+
 /-- `cfgFlag.positive` of a single flag reads exactly that bit -/
 theorem positive_two_pow (r i : Nat) : Gen.cfgFlag_positive r (2 ^ i) = r.testBit i := by
+  -- shape-independent: works for `r & x != 0` as well as for `r & x == x` (equal for a single-bit `x`)
+  have hne := two_pow_ne_zero i
+  have hne' : ¬ (0 = 2 ^ i) := fun h => hne h.symm
   unfold Gen.cfgFlag_positive; rw [and_two_pow]
-  by_cases h : r.testBit i <;> simp [h, two_pow_ne_zero]
+  by_cases h : r.testBit i <;> simp [h, hne, hne']
 
 /-- `cfgFlag.shift` -/
 theorem testBit_shift (r i j : Nat) : (Gen.cfgFlag_shift r (2 ^ i)).testBit j = (r.testBit j || decide (i = j)) := by
